@@ -275,6 +275,28 @@ def move_traces():
                     do("remove_child", [2, 4])
                 do("add_child", [3, 4, index])
                 out.append(tr)
+    # a BRANCH assembled bottom-up (its inner nodes declare and re-declare prefixes of their own) and attached afterwards: while
+    # the branch root's map equals the new parent's (both empty, or the same binding), the bindings further down are the branch's
+    for rootns in ((), (("x", "u"),)):
+        for index in (-1, 0):
+            w = World()
+            for nm in ("r", "b", "c", "d", "e"):
+                w.new(nm)
+            tr = {"init": w.pi(fields), "events": [], "desc": {"case": "bottom-up branch", "root_bindings": list(rootns), "index": index}}
+
+            def do(name, args):
+                ok, ret, exc = w.apply(name, args)
+                tr["events"].append({"op": name, "args": args, "ok": ok, "ret": ret if isinstance(ret, int) else 0, "post": w.pi(fields)})
+            for q, u in rootns:
+                do("add_namespace", [1, q, u])
+                do("add_namespace", [2, q, u])
+            do("add_child", [1, 5, -1])
+            do("add_child", [3, 4, -1])
+            do("add_namespace", [4, "y", "u/"])
+            do("add_namespace", [3, "x", "u/" if rootns else "u"])       # re-declares the root's prefix / declares one
+            do("add_child", [2, 3, -1])
+            do("add_child", [1, 2, index])
+            out.append(tr)
     return out
 
 
